@@ -285,6 +285,8 @@ pub fn run(ctx: &mut Ctx) {
             }
         }
     }
+    // TEMPORARILY off until the data-path model follows repair 0a2b38f (see DESIGN.md Appendix E)
+    // super::c06_datapath::run(ctx);
 }
 
 fn case(file: &[u8], l: usize, flags: u8, path: u8, name: &str) -> J {
@@ -294,6 +296,7 @@ fn case(file: &[u8], l: usize, flags: u8, path: u8, name: &str) -> J {
 }
 
 pub fn replay(ctx: &mut Ctx, c: &J) {
+    if super::c06_datapath::replay(ctx, c) { return; }
     let file = c.get("file").and_then(|f| f.as_str()).and_then(unhex).unwrap_or_default();
     let l = c.get("limit").and_then(|f| f.as_i64()).unwrap_or(65536) as usize;
     let flags = c.get("flags").and_then(|f| f.as_i64()).unwrap_or(0) as u8;
